@@ -268,6 +268,7 @@ class InElastic(_Simu):
 
         Nn = self.mesh.Nn
         u = self.displacement
+        onNodes = True  # where the values below are stored
 
         if result in ["ux", "uy", "uz"]:
             values = u.reshape(Nn, -1)[:, self.__indexResult(result)]
@@ -283,6 +284,7 @@ class InElastic(_Simu):
 
         elif result in self.material.layout.slots:
             values = self.__Result_state(result)
+            onNodes = False
 
         elif ("S" in result or "E" in result) and "_norm" not in result:
             isStress = "S" in result and result != "Strain"
@@ -303,12 +305,13 @@ class InElastic(_Simu):
                 result=res,
                 coef=self.material.coef,
             )
+            onNodes = False
 
         else:
             Terminal.MyPrintError(f"The result '{result}' is not implemented yet.")
             return None  # type: ignore [return-value]
 
-        return self.Results_Reshape_values(values, nodeValues)
+        return self.Results_Reshape_values(values, nodeValues, onNodes)
 
     def Results_Iter_Summary(
         self,
